@@ -1,6 +1,7 @@
 (* Proofs for Model/Actor.v (property C02). *)
 From Coq Require Import List Arith NArith ZArith Bool Lia Permutation Sorted.
 From RV Require Import Lib.Hex Model.Actor.
+From RV Require Lib.Bytes.
 Import ListNotations.
 
 (* ------------------------------------------------------------------------------------ *)
@@ -266,3 +267,844 @@ Section HistProofs.
       + apply andb_true_iff. split; [apply rt_okb_spec|apply legalb_spec]; assumption.
   Qed.
 End HistProofs.
+
+(* ------------------------------------------------------------------------------------ *)
+(* 2. the actor system: invariant                                                         *)
+(* ------------------------------------------------------------------------------------ *)
+Lemma upd_eq : forall A (f : nat -> A) i x, upd f i x i = x.
+Proof. intros. unfold upd. rewrite Nat.eqb_refl. reflexivity. Qed.
+Lemma upd_neq : forall A (f : nat -> A) i x j, j <> i -> upd f i x j = f j.
+Proof. intros. unfold upd. destruct (Nat.eqb_spec j i); [contradiction|reflexivity]. Qed.
+
+Lemma in_snoc : forall A (l : list A) x y, In y (l ++ [x]) <-> In y l \/ y = x.
+Proof.
+  intros. rewrite in_app_iff. cbn. split; intros [H|H]; auto.
+  - destruct H as [H|[]]; auto.
+Qed.
+
+Lemma seq_sorted : forall n a, StronglySorted lt (seq a n).
+Proof.
+  induction n as [|n IH]; cbn; intros a; constructor; [apply IH|].
+  apply Forall_forall. intros x Hx. apply in_seq in Hx. lia.
+Qed.
+
+Section ActorProofs.
+  Variable S Op Reply : Type.
+  Variable step : S -> Op -> S * Reply.
+  Variable route : Op -> nat.
+  Variable cap : nat.
+  Variable g0 : nat -> S.
+  Variable prewarm : nat.
+
+  Notation request := (request Op).
+  Notation sys := (sys S Op Reply).
+  Notation event := (event Op Reply).
+  Notation sstep := (sys_step step route cap).
+  Notation gst := (gstep step route).
+  Notation glegal := (legal (nat -> S) Op Reply gst).
+  Notation gfinal := (final (nat -> S) Op Reply gst).
+
+  Inductive reach : sys -> list event -> Prop :=
+  | reach_init : reach (sys_init g0 prewarm) []
+  | reach_step : forall s evs l s' e,
+      reach s evs -> sstep s l = Some (s', e) -> reach s' (evs ++ [e]).
+
+  Lemma run_reach : forall ls s pre s' evs,
+    reach s pre -> run step route cap s ls = Some (s', evs) -> reach s' (pre ++ evs).
+  Proof.
+    induction ls as [|l ls IH]; cbn; intros s pre s' evs R H.
+    - inversion H; subst. rewrite app_nil_r. exact R.
+    - destruct (sstep s l) as [[s1 e]|] eqn:E; [|discriminate].
+      destruct (run step route cap s1 ls) as [[s2 es]|] eqn:E2; [|discriminate].
+      inversion H; subst.
+      replace (pre ++ e :: es) with ((pre ++ [e]) ++ es) by (rewrite <- app_assoc; reflexivity).
+      eapply IH; [|exact E2]. econstructor; eassumption.
+  Qed.
+
+  (* ---- membership in the id lists ---- *)
+  Lemma in_proc_ids : forall (evs : list event) id,
+    In id (proc_ids evs) <-> exists sh rq r t, In (EProc sh rq r t) evs /\ rq_id rq = id.
+  Proof.
+    intros evs id. unfold proc_ids. rewrite in_flat_map. split.
+    - intros [e [He H]]. destruct e; cbn in H; try contradiction.
+      destruct H as [H|[]]. eauto 8.
+    - intros [sh [rq [r [t [H E]]]]]. eexists. split; [exact H|]. cbn. auto.
+  Qed.
+  Lemma in_ret_ids : forall (evs : list event) id,
+    In id (ret_ids evs) <-> exists rq r t, In (ERet rq r t) evs /\ rq_id rq = id.
+  Proof.
+    intros evs id. unfold ret_ids. rewrite in_flat_map. split.
+    - intros [e [He H]]. destruct e; cbn in H; try contradiction.
+      destruct H as [H|[]]. eauto 8.
+    - intros [rq [r [t [H E]]]]. eexists. split; [exact H|]. cbn. auto.
+  Qed.
+  Lemma proc_ids_snoc : forall (evs : list event) e,
+    proc_ids (evs ++ [e]) = proc_ids evs ++ match e with EProc _ rq _ _ => [rq_id rq] | _ => [] end.
+  Proof. intros. unfold proc_ids. rewrite flat_map_app. cbn. rewrite app_nil_r. reflexivity. Qed.
+  Lemma ret_ids_snoc : forall (evs : list event) e,
+    ret_ids (evs ++ [e]) = ret_ids evs ++ match e with ERet rq _ _ => [rq_id rq] | _ => [] end.
+  Proof. intros. unfold ret_ids. rewrite flat_map_app. cbn. rewrite app_nil_r. reflexivity. Qed.
+  Lemma procs_snoc : forall (evs : list event) e,
+    procs (evs ++ [e]) = procs evs ++ match e with EProc _ rq r _ => [(rq_op rq, r)] | _ => [] end.
+  Proof. intros. unfold procs. rewrite flat_map_app. cbn. rewrite app_nil_r. reflexivity. Qed.
+
+  Record Inv (s : sys) (evs : list event) : Prop := {
+    i_time : map ev_time evs = seq 0 (now s);
+    i_mb : forall sh rq, In rq (mbox s sh) ->
+             route (rq_op rq) = sh /\ exists k, cli s (rq_client rq) = Waiting rq k;
+    i_mbnd : forall sh, NoDup (mbox s sh);
+    i_wait : forall c rq k, cli s c = Waiting rq k ->
+      rq_client rq = c /\ rq_slot rq < next_slot s /\ ~ In (rq_slot rq) (free s) /\
+      In (EInv rq k) evs /\ ~ In (rq_id rq) (ret_ids evs) /\
+      ((In rq (mbox s (route (rq_op rq))) /\ slots s (rq_slot rq) = None /\
+        ~ In (rq_id rq) (proc_ids evs)) \/
+       ((forall sh, ~ In rq (mbox s sh)) /\
+        exists r t, slots s (rq_slot rq) = Some r /\ In (EProc (route (rq_op rq)) rq r t) evs));
+    i_excl : forall c1 c2 rq1 rq2 k1 k2,
+      cli s c1 = Waiting rq1 k1 -> cli s c2 = Waiting rq2 k2 -> rq_slot rq1 = rq_slot rq2 -> c1 = c2;
+    i_free : NoDup (free s) /\
+             (forall x, In x (free s) -> x < next_slot s /\ slots s x = None) /\
+             (forall x, next_slot s <= x -> slots s x = None);
+    i_inv : forall rq k, In (EInv rq k) evs -> rq_id rq < next_id s;
+    i_inv_uniq : forall rq k rq' k', In (EInv rq k) evs -> In (EInv rq' k') evs ->
+                   rq_id rq = rq_id rq' -> rq = rq';
+    i_ret_uniq : forall rq r t rq' r' t', In (ERet rq r t) evs -> In (ERet rq' r' t') evs ->
+                   rq_id rq = rq_id rq' -> rq = rq' /\ r = r' /\ t = t';
+    i_proc_nd : NoDup (proc_ids evs);
+    i_proc : forall sh rq r t, In (EProc sh rq r t) evs ->
+               sh = route (rq_op rq) /\ rq_tinv rq < t /\ exists k, In (EInv rq k) evs;
+    i_ret : forall rq r t, In (ERet rq r t) evs ->
+               exists tp, In (EProc (route (rq_op rq)) rq r tp) evs /\ tp < t;
+    i_legal : glegal g0 (procs evs) /\ forall sh, gfinal g0 (procs evs) sh = mach s sh
+  }.
+
+  Lemma inv_time_lt : forall s evs e, Inv s evs -> In e evs -> ev_time e < now s.
+  Proof.
+    intros s evs e I H. apply (in_map ev_time) in H. rewrite (i_time _ _ I) in H.
+    apply in_seq in H. lia.
+  Qed.
+  Lemma proc_id_lt : forall s evs id, Inv s evs -> In id (proc_ids evs) -> id < next_id s.
+  Proof.
+    intros s evs id I H. apply in_proc_ids in H. destruct H as [sh [rq [r [t [H E]]]]].
+    destruct (i_proc _ _ I _ _ _ _ H) as [_ [_ [k Hk]]]. subst. eapply i_inv; eassumption.
+  Qed.
+  Lemma ret_id_lt : forall s evs id, Inv s evs -> In id (ret_ids evs) -> id < next_id s.
+  Proof.
+    intros s evs id I H. apply in_ret_ids in H. destruct H as [rq [r [t [H E]]]].
+    destruct (i_ret _ _ I _ _ _ H) as [tp [Hp _]]. subst.
+    eapply proc_id_lt; [exact I|]. apply in_proc_ids. eauto 8.
+  Qed.
+
+  Lemma inv_init : Inv (sys_init g0 prewarm) [].
+  Proof.
+    constructor; cbn; try (intros; contradiction); try discriminate; auto.
+    - intros. constructor.
+    - split; [apply seq_NoDup|]. split; [|auto].
+      intros x Hx. apply in_seq in Hx. split; [lia|reflexivity].
+    - constructor.
+  Qed.
+
+  Lemma acquire_ok : forall s evs k slot fr nx,
+    Inv s evs -> acquire k s = (slot, fr, nx) ->
+    slot < nx /\ next_slot s <= nx /\ ~ In slot fr /\ NoDup fr /\
+    (forall x, In x fr -> In x (free s)) /\ slots s slot = None /\
+    (forall x, nx <= x -> slots s x = None) /\ (In slot (free s) \/ slot = next_slot s).
+  Proof.
+    intros s evs k slot fr nx I H. destruct (i_free _ _ I) as [F1 [F2 F3]].
+    unfold acquire in H.
+    assert (Fresh : (slot, fr, nx) = (next_slot s, free s, Datatypes.S (next_slot s)) ->
+      slot < nx /\ next_slot s <= nx /\ ~ In slot fr /\ NoDup fr /\
+      (forall x, In x fr -> In x (free s)) /\ slots s slot = None /\
+      (forall x, nx <= x -> slots s x = None) /\ (In slot (free s) \/ slot = next_slot s)).
+    { intro E. inversion E; subst. repeat split; auto; try lia.
+      - intro Hin. apply F2 in Hin. lia.
+      - intros. apply F3. lia. }
+    destruct k; try (apply Fresh; congruence).
+    destruct (free s) as [|x f'] eqn:Ef; [apply Fresh; congruence|].
+    inversion H; subst. inversion F1; subst.
+    destruct (F2 slot (or_introl eq_refl)) as [L N].
+    repeat split; auto.
+    - intros. right. assumption.
+    - left. left. reflexivity.
+  Qed.
+
+  Lemma inv_invoke : forall s evs c k op slot fr nx,
+    Inv s evs -> (forall rq k', cli s c <> Waiting rq k') ->
+    acquire k s = (slot, fr, nx) ->
+    let rq := Rq (next_id s) c op slot (now s) in
+    Inv (Sys (upd (mbox s) (route op) (mbox s (route op) ++ [rq])) (mach s)
+             (upd (cli s) c (Waiting rq k)) (slots s) fr nx
+             (Datatypes.S (next_id s)) (Datatypes.S (now s)))
+        (evs ++ [EInv rq k]).
+  Proof.
+    intros s evs c k op slot fr nx I Hc Ha rq.
+    destruct (acquire_ok _ _ _ _ _ _ I Ha) as [A1 [A2 [A3 [A4 [A5 [A6 [A7 A8]]]]]]].
+    assert (Hnotin : forall sh, ~ In rq (mbox s sh)).
+    { intros sh Hin. destruct (i_mb _ _ I _ _ Hin) as [_ [k' Hk]]. cbn in Hk. exact (Hc _ _ Hk). }
+    constructor; cbn [mbox mach cli slots free next_slot next_id now].
+    - rewrite map_app, seq_S, (i_time _ _ I). reflexivity.
+    - intros sh rq' Hin.
+      assert (Hold : In rq' (mbox s sh) ->
+                route (rq_op rq') = sh /\ exists k0, upd (cli s) c (Waiting rq k) (rq_client rq') = Waiting rq' k0).
+      { intro Ho. destruct (i_mb _ _ I _ _ Ho) as [R [k' Hk]]. split; [exact R|].
+        exists k'. rewrite upd_neq; [exact Hk|]. intro E. rewrite E in Hk. exact (Hc _ _ Hk). }
+      destruct (Nat.eqb_spec sh (route op)) as [E|E].
+      + subst sh. rewrite upd_eq in Hin. apply in_snoc in Hin. destruct Hin as [Hin|Hin]; [auto|].
+        subst rq'. cbn. split; [reflexivity|]. exists k. apply upd_eq.
+      + rewrite upd_neq in Hin by exact E. auto.
+    - intros sh. destruct (Nat.eqb_spec sh (route op)) as [E|E].
+      + subst sh. rewrite upd_eq. apply NoDup_snoc; [apply (i_mbnd _ _ I)|apply Hnotin].
+      + rewrite upd_neq by exact E. apply (i_mbnd _ _ I).
+    - intros c' rq' k' Hw. destruct (Nat.eqb_spec c' c) as [E|E].
+      + subst c'. rewrite upd_eq in Hw. inversion Hw; subst rq' k'. cbn [rq_client rq_slot rq_id rq_op].
+        split; [reflexivity|]. split; [exact A1|]. split; [exact A3|].
+        split; [apply in_snoc; right; reflexivity|].
+        split.
+        { rewrite ret_ids_snoc, app_nil_r. intro H. apply (ret_id_lt _ _ _ I) in H. unfold rq in H. cbn in H. lia. }
+        left. split; [rewrite upd_eq; apply in_snoc; right; reflexivity|].
+        split; [exact A6|].
+        rewrite proc_ids_snoc, app_nil_r. intro H. apply (proc_id_lt _ _ _ I) in H. unfold rq in H. cbn in H. lia.
+      + rewrite upd_neq in Hw by exact E.
+        destruct (i_wait _ _ I _ _ _ Hw) as [W1 [W2 [W3 [W4 [W5 W6]]]]].
+        split; [exact W1|]. split; [lia|]. split; [intro H; apply W3; apply A5; exact H|].
+        split; [apply in_snoc; left; exact W4|].
+        split; [rewrite ret_ids_snoc, app_nil_r; exact W5|].
+        destruct W6 as [[M1 [M2 M3]]|[M1 [r [t [M2 M3]]]]].
+        * left. split; [|split; [exact M2|rewrite proc_ids_snoc, app_nil_r; exact M3]].
+          destruct (Nat.eqb_spec (route (rq_op rq')) (route op)) as [E'|E'].
+          -- rewrite E'. rewrite upd_eq. apply in_snoc. left. rewrite <- E'. exact M1.
+          -- rewrite upd_neq by exact E'. exact M1.
+        * right. split.
+          -- intros sh Hin. destruct (Nat.eqb_spec sh (route op)) as [E'|E'].
+             ++ subst sh. rewrite upd_eq in Hin. apply in_snoc in Hin. destruct Hin as [Hin|Hin].
+                ** exact (M1 _ Hin).
+                ** subst rq'. cbn in W1. congruence.
+             ++ rewrite upd_neq in Hin by exact E'. exact (M1 _ Hin).
+          -- exists r, t. split; [exact M2|apply in_snoc; left; exact M3].
+    - intros c1 c2 rq1 rq2 k1 k2 H1 H2 Hs.
+      destruct (Nat.eqb_spec c1 c) as [E1|E1], (Nat.eqb_spec c2 c) as [E2|E2]; subst; try reflexivity.
+      + rewrite upd_eq in H1. rewrite upd_neq in H2 by exact E2. inversion H1; subst rq1 k1.
+        cbn in Hs. destruct (i_wait _ _ I _ _ _ H2) as [_ [W2 [W3 _]]].
+        exfalso. destruct A8 as [A8|A8]; [apply W3; rewrite <- Hs; exact A8|lia].
+      + rewrite upd_eq in H2. rewrite upd_neq in H1 by exact E1. inversion H2; subst rq2 k2.
+        cbn in Hs. destruct (i_wait _ _ I _ _ _ H1) as [_ [W2 [W3 _]]].
+        exfalso. destruct A8 as [A8|A8]; [apply W3; rewrite Hs; exact A8|lia].
+      + rewrite upd_neq in H1 by exact E1. rewrite upd_neq in H2 by exact E2.
+        eapply (i_excl _ _ I); eassumption.
+    - destruct (i_free _ _ I) as [F1 [F2 F3]]. split; [exact A4|]. split; [|exact A7].
+      intros x Hx. apply A5 in Hx. destruct (F2 _ Hx). split; [lia|assumption].
+    - intros rq' k' Hin. apply in_snoc in Hin. destruct Hin as [Hin|Hin].
+      + apply (i_inv _ _ I) in Hin. lia.
+      + inversion Hin; subst. cbn. lia.
+    - intros rq1 k1 rq2 k2 H1 H2 Hid. apply in_snoc in H1. apply in_snoc in H2.
+      destruct H1 as [H1|H1], H2 as [H2|H2].
+      + eapply (i_inv_uniq _ _ I); eassumption.
+      + inversion H2; subst rq2 k2. apply (i_inv _ _ I) in H1. cbn in Hid. lia.
+      + inversion H1; subst rq1 k1. apply (i_inv _ _ I) in H2. cbn in Hid. lia.
+      + congruence.
+    - intros rq1 r1 t1 rq2 r2 t2 H1 H2 Hid. apply in_snoc in H1. apply in_snoc in H2.
+      destruct H1 as [H1|H1]; [|discriminate]. destruct H2 as [H2|H2]; [|discriminate].
+      eapply (i_ret_uniq _ _ I); eassumption.
+    - rewrite proc_ids_snoc, app_nil_r. apply (i_proc_nd _ _ I).
+    - intros sh rq' r t Hin. apply in_snoc in Hin. destruct Hin as [Hin|Hin]; [|discriminate].
+      destruct (i_proc _ _ I _ _ _ _ Hin) as [P1 [P2 [k' P3]]].
+      split; [exact P1|]. split; [exact P2|]. exists k'. apply in_snoc. left. exact P3.
+    - intros rq' r t Hin. apply in_snoc in Hin. destruct Hin as [Hin|Hin]; [|discriminate].
+      destruct (i_ret _ _ I _ _ _ Hin) as [tp [P1 P2]]. exists tp. split; [apply in_snoc; left; exact P1|exact P2].
+    - rewrite procs_snoc, app_nil_r. apply (i_legal _ _ I).
+  Qed.
+
+  Lemma inv_process : forall s evs sh rq0 rest,
+    Inv s evs -> mbox s sh = rq0 :: rest ->
+    let st := fst (step (mach s sh) (rq_op rq0)) in
+    let r := snd (step (mach s sh) (rq_op rq0)) in
+    Inv (Sys (upd (mbox s) sh rest) (upd (mach s) sh st) (cli s)
+             (upd (slots s) (rq_slot rq0) (Some r)) (free s) (next_slot s)
+             (next_id s) (Datatypes.S (now s)))
+        (evs ++ [EProc sh rq0 r (now s)]).
+  Proof.
+    intros s evs sh rq0 rest I Hm st r.
+    assert (Hin0 : In rq0 (mbox s sh)) by (rewrite Hm; left; reflexivity).
+    destruct (i_mb _ _ I _ _ Hin0) as [R0 [k0 C0]].
+    destruct (i_wait _ _ I _ _ _ C0) as [W1 [W2 [W3 [W4 [W5 W6]]]]].
+    destruct W6 as [[M1 [M2 M3]]|[M1 _]]; [|exfalso; exact (M1 _ Hin0)].
+    pose proof (i_mbnd _ _ I sh) as ND. rewrite Hm in ND. apply NoDup_cons_iff in ND. destruct ND as [ND1 ND2].
+    assert (Hother : forall c rq k, cli s c = Waiting rq k -> c <> rq_client rq0 ->
+                       rq <> rq0 /\ rq_slot rq <> rq_slot rq0 /\ rq_id rq <> rq_id rq0).
+    { intros c rq k Hw Hne. destruct (i_wait _ _ I _ _ _ Hw) as [V1 [_ [_ [V4 _]]]].
+      split; [intro; subst; congruence|]. split.
+      - intro Es. apply Hne. eapply (i_excl _ _ I); eassumption.
+      - intro Ei. apply Hne. rewrite (i_inv_uniq _ _ I _ _ _ _ V4 W4 Ei) in V1. congruence. }
+    constructor; cbn [mbox mach cli slots free next_slot next_id now].
+    - rewrite map_app, seq_S, (i_time _ _ I). reflexivity.
+    - intros sh' rq' Hin. destruct (Nat.eqb_spec sh' sh) as [E|E].
+      + subst sh'. rewrite upd_eq in Hin. apply (i_mb _ _ I). rewrite Hm. right. exact Hin.
+      + rewrite upd_neq in Hin by exact E. apply (i_mb _ _ I). exact Hin.
+    - intros sh'. destruct (Nat.eqb_spec sh' sh) as [E|E].
+      + subst sh'. rewrite upd_eq. exact ND2.
+      + rewrite upd_neq by exact E. apply (i_mbnd _ _ I).
+    - intros c rq k Hw.
+      destruct (i_wait _ _ I _ _ _ Hw) as [V1 [V2 [V3 [V4 [V5 V6]]]]].
+      split; [exact V1|]. split; [exact V2|]. split; [exact V3|].
+      split; [apply in_snoc; left; exact V4|].
+      split; [rewrite ret_ids_snoc, app_nil_r; exact V5|].
+      destruct (Nat.eqb_spec c (rq_client rq0)) as [E|E].
+      + rewrite E in Hw. rewrite C0 in Hw. inversion Hw; subst rq k.
+        right. split.
+        * intros sh' Hin. destruct (Nat.eqb_spec sh' sh) as [E'|E'].
+          -- subst sh'. rewrite upd_eq in Hin. exact (ND1 Hin).
+          -- rewrite upd_neq in Hin by exact E'. destruct (i_mb _ _ I _ _ Hin) as [R' _]. congruence.
+        * exists r, (now s). split; [apply upd_eq|]. apply in_snoc. right. rewrite R0. reflexivity.
+      + destruct (Hother _ _ _ Hw E) as [O1 [O2 O3]].
+        rewrite (upd_neq _ (slots s)) by exact O2.
+        destruct V6 as [[N1 [N2 N3]]|[N1 [r' [t' [N2 N3]]]]].
+        * left. split; [|split; [exact N2|]].
+          -- destruct (Nat.eqb_spec (route (rq_op rq)) sh) as [E'|E'].
+             ++ rewrite E', upd_eq. rewrite E', Hm in N1. destruct N1 as [N1|N1]; [congruence|exact N1].
+             ++ rewrite upd_neq by exact E'. exact N1.
+          -- rewrite proc_ids_snoc. intro H. apply in_snoc in H. destruct H as [H|H]; [exact (N3 H)|congruence].
+        * right. split.
+          -- intros sh' Hin. destruct (Nat.eqb_spec sh' sh) as [E'|E'].
+             ++ subst sh'. rewrite upd_eq in Hin. apply (N1 sh). rewrite Hm. right. exact Hin.
+             ++ rewrite upd_neq in Hin by exact E'. exact (N1 _ Hin).
+          -- exists r', t'. split; [exact N2|apply in_snoc; left; exact N3].
+    - apply (i_excl _ _ I).
+    - destruct (i_free _ _ I) as [F1 [F2 F3]]. split; [exact F1|]. split.
+      + intros x Hx. destruct (F2 _ Hx) as [L N]. split; [exact L|].
+        rewrite upd_neq; [exact N|]. intro; subst. exact (W3 Hx).
+      + intros x Hx. rewrite upd_neq; [apply F3; exact Hx|lia].
+    - intros rq' k' Hin. apply in_snoc in Hin. destruct Hin as [Hin|Hin]; [|discriminate].
+      apply (i_inv _ _ I) in Hin. exact Hin.
+    - intros rq1 k1 rq2 k2 H1 H2 Hid. apply in_snoc in H1. apply in_snoc in H2.
+      destruct H1 as [H1|H1]; [|discriminate]. destruct H2 as [H2|H2]; [|discriminate].
+      eapply (i_inv_uniq _ _ I); eassumption.
+    - intros rq1 r1 t1 rq2 r2 t2 H1 H2 Hid. apply in_snoc in H1. apply in_snoc in H2.
+      destruct H1 as [H1|H1]; [|discriminate]. destruct H2 as [H2|H2]; [|discriminate].
+      eapply (i_ret_uniq _ _ I); eassumption.
+    - rewrite proc_ids_snoc. apply NoDup_snoc; [apply (i_proc_nd _ _ I)|exact M3].
+    - intros sh' rq' r' t Hin. apply in_snoc in Hin. destruct Hin as [Hin|Hin].
+      + destruct (i_proc _ _ I _ _ _ _ Hin) as [P1 [P2 [k' P3]]].
+        split; [exact P1|]. split; [exact P2|]. exists k'. apply in_snoc. left. exact P3.
+      + inversion Hin; subst sh' rq' r' t. split; [symmetry; exact R0|]. split.
+        * apply (inv_time_lt _ _ _ I W4).
+        * exists k0. apply in_snoc. left. exact W4.
+    - intros rq' r' t Hin. apply in_snoc in Hin. destruct Hin as [Hin|Hin]; [|discriminate].
+      destruct (i_ret _ _ I _ _ _ Hin) as [tp [P1 P2]]. exists tp. split; [apply in_snoc; left; exact P1|exact P2].
+    - destruct (i_legal _ _ I) as [L1 L2]. rewrite procs_snoc. split.
+      + apply legal_app. split; [exact L1|]. cbn. split; [|trivial].
+        unfold r. rewrite R0, L2. reflexivity.
+      + intros sh'. rewrite final_app. cbn. unfold upd at 1. rewrite R0.
+        destruct (Nat.eqb_spec sh' sh) as [E|E].
+        * subst sh'. rewrite upd_eq. rewrite L2. reflexivity.
+        * rewrite upd_neq by exact E. apply L2.
+  Qed.
+
+  Lemma release_in : forall k slot fr x, In x (release cap k slot fr) -> In x fr \/ x = slot.
+  Proof.
+    intros k slot fr x H. unfold release in H. destruct k; auto.
+    destruct (length fr <? cap); auto. apply in_snoc in H. exact H.
+  Qed.
+  Lemma release_nodup : forall k slot fr, NoDup fr -> ~ In slot fr -> NoDup (release cap k slot fr).
+  Proof.
+    intros k slot fr H Hn. unfold release. destruct k; auto.
+    destruct (length fr <? cap); auto. apply NoDup_snoc; assumption.
+  Qed.
+
+  Lemma inv_return : forall s evs c rq k r,
+    Inv s evs -> cli s c = Waiting rq k -> slots s (rq_slot rq) = Some r ->
+    Inv (Sys (mbox s) (mach s) (upd (cli s) c (Done r))
+             (upd (slots s) (rq_slot rq) None)
+             (release cap k (rq_slot rq) (free s)) (next_slot s)
+             (next_id s) (Datatypes.S (now s)))
+        (evs ++ [ERet rq r (now s)]).
+  Proof.
+    intros s evs c rq k r I Hw Hs.
+    destruct (i_wait _ _ I _ _ _ Hw) as [W1 [W2 [W3 [W4 [W5 W6]]]]].
+    destruct W6 as [[_ [M2 _]]|[M1 [r' [t' [M2 M3]]]]]; [congruence|].
+    assert (r' = r) by congruence. subst r'.
+    assert (Hother : forall c' rq' k', cli s c' = Waiting rq' k' -> c' <> c ->
+                       rq_slot rq' <> rq_slot rq /\ rq_id rq' <> rq_id rq).
+    { intros c' rq' k' Hw' Hne. destruct (i_wait _ _ I _ _ _ Hw') as [V1 [_ [_ [V4 _]]]]. split.
+      - intro Es. apply Hne. eapply (i_excl _ _ I); eassumption.
+      - intro Ei. apply Hne. rewrite (i_inv_uniq _ _ I _ _ _ _ V4 W4 Ei) in V1. congruence. }
+    constructor; cbn [mbox mach cli slots free next_slot next_id now].
+    - rewrite map_app, seq_S, (i_time _ _ I). reflexivity.
+    - intros sh rq' Hin. destruct (i_mb _ _ I _ _ Hin) as [R [k' Hk]]. split; [exact R|].
+      exists k'. rewrite upd_neq; [exact Hk|]. intro E. rewrite E, Hw in Hk. inversion Hk; subst.
+      exact (M1 _ Hin).
+    - apply (i_mbnd _ _ I).
+    - intros c' rq' k' Hw'. destruct (Nat.eqb_spec c' c) as [E|E].
+      + subst c'. rewrite upd_eq in Hw'. discriminate.
+      + rewrite upd_neq in Hw' by exact E.
+        destruct (Hother _ _ _ Hw' E) as [O1 O2].
+        destruct (i_wait _ _ I _ _ _ Hw') as [V1 [V2 [V3 [V4 [V5 V6]]]]].
+        split; [exact V1|]. split; [exact V2|]. split.
+        { intro H. apply release_in in H. destruct H as [H|H]; [exact (V3 H)|exact (O1 H)]. }
+        split; [apply in_snoc; left; exact V4|].
+        split.
+        { rewrite ret_ids_snoc. intro H. apply in_snoc in H. destruct H as [H|H]; [exact (V5 H)|exact (O2 H)]. }
+        rewrite (upd_neq _ (slots s)) by exact O1.
+        rewrite proc_ids_snoc, app_nil_r.
+        destruct V6 as [N|[N1 [r'' [t'' [N2 N3]]]]]; [left; exact N|].
+        right. split; [exact N1|]. exists r'', t''. split; [exact N2|apply in_snoc; left; exact N3].
+    - intros c1 c2 rq1 rq2 k1 k2 H1 H2 Hsl.
+      destruct (Nat.eqb_spec c1 c) as [E1|E1]; [subst c1; rewrite upd_eq in H1; discriminate|].
+      destruct (Nat.eqb_spec c2 c) as [E2|E2]; [subst c2; rewrite upd_eq in H2; discriminate|].
+      rewrite upd_neq in H1 by exact E1. rewrite upd_neq in H2 by exact E2.
+      eapply (i_excl _ _ I); eassumption.
+    - destruct (i_free _ _ I) as [F1 [F2 F3]]. split; [apply release_nodup; assumption|]. split.
+      + intros x Hx. apply release_in in Hx. destruct Hx as [Hx|Hx].
+        * destruct (F2 _ Hx) as [L N]. split; [exact L|].
+          rewrite upd_neq; [exact N|]. intro; subst. exact (W3 Hx).
+        * subst x. split; [exact W2|apply upd_eq].
+      + intros x Hx. rewrite upd_neq; [apply F3; exact Hx|lia].
+    - intros rq' k' Hin. apply in_snoc in Hin. destruct Hin as [Hin|Hin]; [|discriminate].
+      apply (i_inv _ _ I) in Hin. exact Hin.
+    - intros rq1 k1 rq2 k2 H1 H2 Hid. apply in_snoc in H1. apply in_snoc in H2.
+      destruct H1 as [H1|H1]; [|discriminate]. destruct H2 as [H2|H2]; [|discriminate].
+      eapply (i_inv_uniq _ _ I); eassumption.
+    - intros rq1 r1 t1 rq2 r2 t2 H1 H2 Hid. apply in_snoc in H1. apply in_snoc in H2.
+      destruct H1 as [H1|H1], H2 as [H2|H2].
+      + eapply (i_ret_uniq _ _ I); eassumption.
+      + inversion H2; subst rq2 r2 t2. exfalso. apply W5. apply in_ret_ids. eauto 8.
+      + inversion H1; subst rq1 r1 t1. exfalso. apply W5. apply in_ret_ids. exists rq2, r2, t2. split; [exact H2|congruence].
+      + inversion H1. inversion H2. subst. auto.
+    - rewrite proc_ids_snoc, app_nil_r. apply (i_proc_nd _ _ I).
+    - intros sh rq' r0 t Hin. apply in_snoc in Hin. destruct Hin as [Hin|Hin]; [|discriminate].
+      destruct (i_proc _ _ I _ _ _ _ Hin) as [P1 [P2 [k' P3]]].
+      split; [exact P1|]. split; [exact P2|]. exists k'. apply in_snoc. left. exact P3.
+    - intros rq' r0 t Hin. apply in_snoc in Hin. destruct Hin as [Hin|Hin].
+      + destruct (i_ret _ _ I _ _ _ Hin) as [tp [P1 P2]]. exists tp. split; [apply in_snoc; left; exact P1|exact P2].
+      + inversion Hin; subst rq' r0 t. exists t'. split; [apply in_snoc; left; exact M3|].
+        apply (inv_time_lt _ _ _ I M3).
+    - rewrite procs_snoc, app_nil_r. apply (i_legal _ _ I).
+  Qed.
+
+  Lemma inv_step : forall s evs l s' e, Inv s evs -> sstep s l = Some (s', e) -> Inv s' (evs ++ [e]).
+  Proof.
+    intros s evs l s' e I H. destruct l as [c k op|sh|c]; cbn in H.
+    - destruct (acquire k s) as [[slot fr] nx] eqn:Ea.
+      destruct (cli s c) eqn:Ec; try discriminate; inversion H; subst;
+        (eapply inv_invoke; [exact I|intros ? ?; rewrite Ec; discriminate|exact Ea]).
+    - destruct (mbox s sh) as [|rq0 rest] eqn:Em; [discriminate|]. inversion H; subst.
+      apply inv_process; assumption.
+    - destruct (cli s c) as [|rq k|] eqn:Ec; try discriminate.
+      destruct (slots s (rq_slot rq)) as [r|] eqn:Es; [|discriminate]. inversion H; subst.
+      apply inv_return; assumption.
+  Qed.
+
+  Lemma reach_inv : forall s evs, reach s evs -> Inv s evs.
+  Proof. induction 1; [apply inv_init|eapply inv_step; eassumption]. Qed.
+
+  Lemma run_inv : forall ls s evs, run step route cap (sys_init g0 prewarm) ls = Some (s, evs) -> Inv s evs.
+  Proof.
+    intros ls s evs H. apply reach_inv. apply (run_reach ls _ [] _ _ reach_init H).
+  Qed.
+
+  (* ---- the theorems about traces ---- *)
+  Notation init := (sys_init g0 prewarm).
+
+  Lemma actor_linearizable_lemma : forall ls s evs,
+    run step route cap init ls = Some (s, evs) ->
+    (* (1) the Process order is a legal sequential run of the node, ending in the shards' states *)
+    (glegal g0 (procs evs) /\ forall sh, gfinal g0 (procs evs) sh = mach s sh) /\
+    (* (2) every returned reply is the reply computed when the client's own request was
+           processed, and that instant lies between invocation and response *)
+    (forall rq r t, In (ERet rq r t) evs ->
+       exists k tp, In (EInv rq k) evs /\ In (EProc (route (rq_op rq)) rq r tp) evs /\
+                    rq_tinv rq < tp /\ tp < t) /\
+    (* (3) real-time order: a returned before b was invoked => a was processed before b *)
+    (forall a ra ta b shb rb tb, In (ERet a ra ta) evs -> ta < rq_tinv b ->
+       In (EProc shb b rb tb) evs ->
+       exists tpa, In (EProc (route (rq_op a)) a ra tpa) evs /\ tpa < tb) /\
+    (* event number i carries instant i, so instants are positions in the trace *)
+    map ev_time evs = seq 0 (length evs).
+  Proof.
+    intros ls s evs H. pose proof (run_inv _ _ _ H) as I.
+    assert (P2 : forall rq r t, In (ERet rq r t) evs ->
+       exists k tp, In (EInv rq k) evs /\ In (EProc (route (rq_op rq)) rq r tp) evs /\
+                    rq_tinv rq < tp /\ tp < t).
+    { intros rq r t Hr. destruct (i_ret _ _ I _ _ _ Hr) as [tp [Hp Hlt]].
+      destruct (i_proc _ _ I _ _ _ _ Hp) as [_ [Hlt2 [k Hk]]]. exists k, tp. auto. }
+    split; [apply (i_legal _ _ I)|]. split; [exact P2|]. split.
+    - intros a ra ta b shb rb tb Ha Hlt Hb.
+      destruct (P2 _ _ _ Ha) as [k [tp [_ [Hp [_ Hlt2]]]]].
+      destruct (i_proc _ _ I _ _ _ _ Hb) as [_ [Hlt3 _]].
+      exists tp. split; [exact Hp|lia].
+    - pose proof (i_time _ _ I) as T. rewrite T.
+      apply (f_equal (@length nat)) in T. rewrite map_length, seq_length in T. rewrite T. reflexivity.
+  Qed.
+
+  Lemma slot_exclusive_lemma : forall ls s evs,
+    run step route cap init ls = Some (s, evs) ->
+    (* two in-flight requests never share a reply cell; an in-flight cell is not in the pool;
+       the pool holds no cell twice *)
+    (forall c1 c2 rq1 rq2 k1 k2, cli s c1 = Waiting rq1 k1 -> cli s c2 = Waiting rq2 k2 ->
+       rq_slot rq1 = rq_slot rq2 -> c1 = c2) /\
+    (forall c rq k, cli s c = Waiting rq k -> ~ In (rq_slot rq) (free s)) /\
+    NoDup (free s) /\
+    (* whatever a client reads next from its cell is the reply computed for its own request *)
+    (forall c s' rq r t, sstep s (LReturn c) = Some (s', ERet rq r t) ->
+       rq_client rq = c /\ exists k tp, In (EInv rq k) evs /\ In (EProc (route (rq_op rq)) rq r tp) evs) /\
+    (* and every reply returned so far was *)
+    (forall rq r t, In (ERet rq r t) evs ->
+       exists k tp, In (EInv rq k) evs /\ In (EProc (route (rq_op rq)) rq r tp) evs).
+  Proof.
+    intros ls s evs H. pose proof (run_inv _ _ _ H) as I.
+    split; [apply (i_excl _ _ I)|]. split.
+    { intros c rq k Hw. apply (i_wait _ _ I _ _ _ Hw). }
+    split; [apply (i_free _ _ I)|]. split.
+    - intros c s' rq r t Hs.
+      pose proof (inv_step _ _ _ _ _ I Hs) as I'.
+      cbn in Hs. destruct (cli s c) as [|rq' k|] eqn:Ec; try discriminate.
+      destruct (slots s (rq_slot rq')) as [r'|] eqn:Es; [|discriminate]. inversion Hs; subst.
+      destruct (i_wait _ _ I _ _ _ Ec) as [W1 [_ [_ [W4 [_ W6]]]]].
+      split; [exact W1|]. exists k.
+      destruct W6 as [[_ [M2 _]]|[_ [r' [t' [M2 M3]]]]]; [congruence|].
+      exists t'. split; [exact W4|]. congruence.
+    - intros rq r t Hr. destruct (i_ret _ _ I _ _ _ Hr) as [tp [Hp _]].
+      destruct (i_proc _ _ I _ _ _ _ Hp) as [_ [_ [k Hk]]]. eauto.
+  Qed.
+
+  (* ---- the history of a trace, classical form ---- *)
+  Definition order_of (full l : list event) : list (oprec Op Reply * nat) :=
+    flat_map (fun e => match e with
+                       | EProc _ rq r t =>
+                           [(OpRec (rq_id rq) (rq_tinv rq) (find_ret (rq_id rq) full) (rq_op rq) r, t)]
+                       | _ => [] end) l.
+  Definition pending_of (full l : list event) : list (pendrec Op) :=
+    flat_map (fun e => match e with
+                       | EInv rq _ => match find_ret (rq_id rq) full with
+                                      | None => [PendRec (rq_id rq) (rq_tinv rq) (rq_op rq)]
+                                      | Some _ => [] end
+                       | _ => [] end) l.
+
+  Lemma order_of_ids : forall full l, map o_id (map fst (order_of full l)) = proc_ids l.
+  Proof.
+    induction l as [|e l IH]; [reflexivity|]. unfold order_of, proc_ids in *. cbn [flat_map].
+    rewrite !map_app, IH. destruct e; reflexivity.
+  Qed.
+  Lemma order_of_procs : forall full l, map opr (map fst (order_of full l)) = procs l.
+  Proof.
+    induction l as [|e l IH]; [reflexivity|]. unfold order_of, procs in *. cbn [flat_map].
+    rewrite !map_app, IH. destruct e; reflexivity.
+  Qed.
+  Lemma in_order_of : forall full l x,
+    In x (order_of full l) <->
+    exists sh rq r t, In (EProc sh rq r t) l /\
+      x = (OpRec (rq_id rq) (rq_tinv rq) (find_ret (rq_id rq) full) (rq_op rq) r, t).
+  Proof.
+    intros full l x. unfold order_of. rewrite in_flat_map. split.
+    - intros [e [He H]]. destruct e; cbn in H; try contradiction. destruct H as [H|[]]. eauto 8.
+    - intros [sh [rq [r [t [H E]]]]]. eexists. split; [exact H|]. cbn. auto.
+  Qed.
+  Lemma in_completed : forall (l : list event) o,
+    In o (completed l) <->
+    exists rq r t, In (ERet rq r t) l /\ o = OpRec (rq_id rq) (rq_tinv rq) (Some t) (rq_op rq) r.
+  Proof.
+    intros l o. unfold completed. rewrite in_flat_map. split.
+    - intros [e [He H]]. destruct e; cbn in H; try contradiction. destruct H as [H|[]]. eauto 8.
+    - intros [rq [r [t [H E]]]]. eexists. split; [exact H|]. cbn. auto.
+  Qed.
+  Lemma in_pending_of : forall full l rq k,
+    In (EInv rq k) l -> find_ret (rq_id rq) full = None ->
+    In (PendRec (rq_id rq) (rq_tinv rq) (rq_op rq)) (pending_of full l).
+  Proof.
+    intros full l rq k H E. unfold pending_of. apply in_flat_map.
+    eexists. split; [exact H|]. cbn. rewrite E. left. reflexivity.
+  Qed.
+  Lemma find_ret_some : forall (l : list event) id t,
+    find_ret id l = Some t -> exists rq r, In (ERet rq r t) l /\ rq_id rq = id.
+  Proof.
+    induction l as [|e l IH]; cbn; intros id t H; [discriminate|].
+    destruct e as [rq k|sh rq r t0|rq r t0].
+    - destruct (IH _ _ H) as [rq' [r' [H1 H2]]]. eauto.
+    - destruct (IH _ _ H) as [rq' [r' [H1 H2]]]. eauto.
+    - destruct (Nat.eqb_spec (rq_id rq) id) as [E|E].
+      + inversion H; subst. eauto.
+      + destruct (IH _ _ H) as [rq' [r' [H1 H2]]]. eauto.
+  Qed.
+  Lemma find_ret_in : forall (l : list event) rq r t,
+    In (ERet rq r t) l -> exists t', find_ret (rq_id rq) l = Some t'.
+  Proof.
+    induction l as [|e l IH]; cbn; intros rq r t H; [contradiction|].
+    destruct H as [H|H].
+    - subst e. rewrite Nat.eqb_refl. eauto.
+    - destruct e as [rq' k|sh rq' r' t0|rq' r' t0]; try (eapply IH; eassumption).
+      destruct (Nat.eqb (rq_id rq') (rq_id rq)); [eauto|eapply IH; eassumption].
+  Qed.
+  Lemma order_of_times : forall full l x,
+    In x (map snd (order_of full l)) -> In x (map ev_time l).
+  Proof.
+    intros full l x H. apply in_map_iff in H. destruct H as [[o p] [E H]]. cbn in E. subst p.
+    apply in_order_of in H. destruct H as [sh [rq [r [t [H E]]]]]. inversion E; subst.
+    apply in_map_iff. exists (EProc sh rq r t). auto.
+  Qed.
+  Lemma order_of_sorted : forall full l,
+    StronglySorted lt (map ev_time l) -> StronglySorted lt (map snd (order_of full l)).
+  Proof.
+    induction l as [|e l IH]; cbn; intros H; [constructor|].
+    inversion H; subst. specialize (IH H2).
+    unfold order_of. cbn [flat_map]. fold (order_of full l). rewrite map_app.
+    destruct e as [rq k|sh rq r t|rq r t]; cbn; try exact IH.
+    constructor; [exact IH|]. apply Forall_forall. intros x Hx.
+    apply order_of_times in Hx. rewrite Forall_forall in H3. apply H3 in Hx. exact Hx.
+  Qed.
+
+  Lemma actor_lin_points_lemma : forall ls s evs,
+    run step route cap init ls = Some (s, evs) ->
+    lin_points (nat -> S) Op Reply gst g0 (completed evs) (pending evs).
+  Proof.
+    intros ls s evs H. pose proof (run_inv _ _ _ H) as I.
+    exists (order_of evs evs).
+    assert (FR : forall rq r t, In (ERet rq r t) evs -> find_ret (rq_id rq) evs = Some t).
+    { intros rq r t Hr. destruct (find_ret_in _ _ _ _ Hr) as [t' Ht]. rewrite Ht.
+      destruct (find_ret_some _ _ _ Ht) as [rq' [r' [Hr' Hid]]].
+      destruct (i_ret_uniq _ _ I _ _ _ _ _ _ Hr' Hr Hid) as [_ [_ E]]. congruence. }
+    assert (PU : forall sh rq r t sh' rq' r' t', In (EProc sh rq r t) evs -> In (EProc sh' rq' r' t') evs ->
+                   rq_id rq = rq_id rq' -> EProc sh rq r t = EProc sh' rq' r' t').
+    { intros sh rq r t sh' rq' r' t' H1 H2 Hid.
+      eapply (NoDup_flat_map_inj _ _ _ _ _ _ (rq_id rq) (i_proc_nd _ _ I) H1 H2); cbn; auto. }
+    split; [|split; [|split]].
+    - split; [|split].
+      + rewrite order_of_ids. apply (i_proc_nd _ _ I).
+      + intros o Ho. apply in_completed in Ho. destruct Ho as [rq [r [t [Hr E]]]]. subst o.
+        destruct (i_ret _ _ I _ _ _ Hr) as [tp [Hp _]].
+        apply in_map_iff. eexists (_, tp). split; [|apply in_order_of; eauto 8].
+        cbn. rewrite (FR _ _ _ Hr). reflexivity.
+      + intros o Ho. apply in_map_iff in Ho. destruct Ho as [[o' p] [E Ho]]. cbn in E. subst o'.
+        apply in_order_of in Ho. destruct Ho as [sh [rq [r [t [Hp E]]]]]. inversion E; subst o p. clear E.
+        destruct (find_ret (rq_id rq) evs) as [tr|] eqn:Ef.
+        * left. destruct (find_ret_some _ _ _ Ef) as [rq' [r' [Hr Hid]]].
+          destruct (i_ret _ _ I _ _ _ Hr) as [tp [Hp' _]].
+          pose proof (PU _ _ _ _ _ _ _ _ Hp' Hp Hid) as E. inversion E; subst.
+          apply in_completed. eauto 8.
+        * right. destruct (i_proc _ _ I _ _ _ _ Hp) as [_ [_ [k Hk]]].
+          exists (PendRec (rq_id rq) (rq_tinv rq) (rq_op rq)), r. split; [|reflexivity].
+          exact (in_pending_of evs evs _ _ Hk Ef).
+    - rewrite order_of_procs. apply (i_legal _ _ I).
+    - apply order_of_sorted. rewrite (i_time _ _ I). apply seq_sorted.
+    - apply Forall_forall. intros [o p] Ho. apply in_order_of in Ho.
+      destruct Ho as [sh [rq [r [t [Hp E]]]]]. inversion E; subst o p. clear E.
+      destruct (i_proc _ _ I _ _ _ _ Hp) as [_ [Hlt _]].
+      split; cbn; [exact Hlt|]. intros tr Ef.
+      destruct (find_ret_some _ _ _ Ef) as [rq' [r' [Hr Hid]]].
+      destruct (i_ret _ _ I _ _ _ Hr) as [tp [Hp' Hlt']].
+      pose proof (PU _ _ _ _ _ _ _ _ Hp' Hp Hid) as E. inversion E; subst. exact Hlt'.
+  Qed.
+
+  Lemma actor_classical_lemma : forall ls s evs,
+    run step route cap init ls = Some (s, evs) ->
+    linearizable (nat -> S) Op Reply gst g0 (completed evs) (pending evs).
+  Proof.
+    intros. apply points_imply_linearizable_gen. eapply actor_lin_points_lemma. eassumption.
+  Qed.
+End ActorProofs.
+
+(* ------------------------------------------------------------------------------------ *)
+(* 3. projection to one key                                                               *)
+(* ------------------------------------------------------------------------------------ *)
+Section KeyProofs.
+  Variable S Op Reply : Type.
+  Variable step : S -> Op -> S * Reply.
+  Variable route : Op -> nat.
+  Variable K V KReply : Type.
+  Variable touches : Op -> K -> bool.
+  Variable view : S -> K -> V.
+  Variable kstep : K -> V -> Op -> V * KReply.
+  Variable rproj : K -> Reply -> KReply.
+  Variable home : K -> nat.
+
+  (* an operation that touches key k acts on k's part of the state like the per-key machine,
+     and returns (the k-part of) the reply that machine returns *)
+  Hypothesis key_local : forall s op k, touches op k = true ->
+    kstep k (view s k) op = (view (fst (step s op)) k, rproj k (snd (step s op))).
+  (* an operation that does not touch k leaves k's part alone *)
+  Hypothesis key_frame : forall s op k, touches op k = false -> view (fst (step s op)) k = view s k.
+  (* every path routes every operation that touches k to k's one home shard *)
+  Hypothesis single_homed : forall op k, touches op k = true -> route op = home k.
+
+  Notation gst := (gstep step route).
+
+  Lemma legal_project : forall l g k,
+    legal (nat -> S) Op Reply gst g l ->
+    legal V Op KReply (kstep k) (view (g (home k)) k) (proj_ops Op Reply KReply K touches rproj k l).
+  Proof.
+    induction l as [|[op r] t IH]; intros g k H; [exact Logic.I|].
+    cbn in H. destruct H as [H1 H2]. unfold proj_ops. cbn [filter fst].
+    destruct (touches op k) eqn:Et.
+    - cbn [map fst snd]. pose proof (single_homed _ _ Et) as Rh.
+      pose proof (key_local (g (home k)) op k Et) as KL.
+      cbn. rewrite KL. cbn [fst snd]. split.
+      + rewrite <- Rh. rewrite H1. reflexivity.
+      + specialize (IH _ k H2). unfold proj_ops in IH.
+        rewrite Rh in IH. rewrite upd_eq in IH. exact IH.
+    - specialize (IH _ k H2). unfold proj_ops in IH.
+      assert (E : view (upd g (route op) (fst (step (g (route op)) op)) (home k)) k = view (g (home k)) k).
+      { destruct (Nat.eqb_spec (home k) (route op)) as [E|E].
+        - rewrite E, upd_eq. rewrite <- E. apply key_frame. exact Et.
+        - rewrite upd_neq by exact E. reflexivity. }
+      rewrite E in IH. exact IH.
+  Qed.
+
+  Notation ph := (proj_hist Op Reply KReply K touches rproj).
+  Notation pp := (proj_pend Op K touches).
+
+  Lemma proj_hist_opr : forall k l,
+    map opr (ph k l) = proj_ops Op Reply KReply K touches rproj k (map opr l).
+  Proof.
+    induction l as [|o t IH]; [reflexivity|].
+    unfold proj_hist, proj_ops in *. cbn [filter map opr fst]. destruct (touches (o_op o) k); cbn; rewrite IH; reflexivity.
+  Qed.
+
+  Lemma rt_ok_proj : forall k l, rt_ok l -> rt_ok (ph k l).
+  Proof.
+    induction l as [|a t IH]; intros H; [exact Logic.I|].
+    cbn in H. destruct H as [H1 H2]. unfold proj_hist. cbn [filter].
+    destruct (touches (o_op a) k); [|apply IH; exact H2].
+    cbn [map]. split; [|apply IH; exact H2].
+    intros b Hb. apply in_map_iff in Hb. destruct Hb as [b0 [E Hb]]. subst b.
+    apply filter_In in Hb. destruct Hb as [Hb _]. exact (H1 _ Hb).
+  Qed.
+
+  Lemma linearizable_project : forall g comp pend k,
+    linearizable (nat -> S) Op Reply gst g comp pend ->
+    linearizable V Op KReply (kstep k) (view (g (home k)) k) (ph k comp) (pp k pend).
+  Proof.
+    intros g comp pend k [order [[C1 [C2 C3]] [Hl Hr]]].
+    exists (ph k order). split; [|split].
+    - split; [|split].
+      + unfold proj_hist. rewrite map_map. cbn. apply NoDup_map_filter. exact C1.
+      + intros o Ho. unfold proj_hist in *. apply in_map_iff in Ho. destruct Ho as [o0 [E Ho]].
+        apply filter_In in Ho. destruct Ho as [Ho Ht]. apply in_map_iff. exists o0. split; [exact E|].
+        apply filter_In. split; [apply C2; exact Ho|exact Ht].
+      + intros o Ho. unfold proj_hist in Ho. apply in_map_iff in Ho. destruct Ho as [o0 [E Ho]].
+        apply filter_In in Ho. destruct Ho as [Ho Ht]. destruct (C3 _ Ho) as [Hc|[p [r [Hp Ec]]]].
+        * left. unfold proj_hist. apply in_map_iff. exists o0. split; [exact E|].
+          apply filter_In. auto.
+        * right. exists p, (rproj k r). split.
+          -- unfold proj_pend. apply filter_In. split; [exact Hp|]. subst o0. exact Ht.
+          -- subst. reflexivity.
+    - rewrite proj_hist_opr. apply legal_project. exact Hl.
+    - apply rt_ok_proj. exact Hr.
+  Qed.
+
+  Lemma per_key_lemma : forall cap g0 prewarm ls s evs k,
+    run step route cap (sys_init g0 prewarm) ls = Some (s, evs) ->
+    linearizable V Op KReply (kstep k) (view (g0 (home k)) k)
+      (ph k (completed evs)) (pp k (pending evs)).
+  Proof.
+    intros. apply linearizable_project. eapply actor_classical_lemma. eassumption.
+  Qed.
+End KeyProofs.
+
+(* ------------------------------------------------------------------------------------ *)
+(* 4. batches of key-local primitives are key-local                                       *)
+(* ------------------------------------------------------------------------------------ *)
+Section BatchLocal.
+  Variable S POp PReply K V : Type.
+  Variable pstep : S -> POp -> S * PReply.
+  Variable pkey : POp -> K.
+  Variable keqb : K -> K -> bool.
+  Hypothesis keqb_eq : forall a b, keqb a b = true <-> a = b.
+  Variable view : S -> K -> V.
+  Variable pkstep : V -> POp -> V * PReply.
+  Hypothesis prim_local : forall s p,
+    pkstep (view s (pkey p)) p = (view (fst (pstep s p)) (pkey p), snd (pstep s p)).
+  Hypothesis prim_frame : forall s p k, k <> pkey p -> view (fst (pstep s p)) k = view s k.
+
+  (* the batch machine; its reply lists (key, reply) pairs *)
+  Definition kbatch_step (s : S) (b : list POp) : S * list (K * PReply) :=
+    (fst (batch_step S POp PReply pstep s b), combine (map pkey b) (snd (batch_step S POp PReply pstep s b))).
+  Definition kbatch_touches (b : list POp) (k : K) : bool := existsb (fun p => keqb (pkey p) k) b.
+  Definition kbatch_kstep (k : K) (v : V) (b : list POp) : V * list PReply :=
+    batch_step V POp PReply pkstep v (filter (fun p => keqb (pkey p) k) b).
+  Definition kbatch_rproj (k : K) (r : list (K * PReply)) : list PReply :=
+    map snd (filter (fun x => keqb (fst x) k) r).
+
+  Lemma kbatch_local_gen : forall b s k,
+    kbatch_kstep k (view s k) b =
+    (view (fst (kbatch_step s b)) k, kbatch_rproj k (snd (kbatch_step s b))).
+  Proof.
+    induction b as [|p t IH]; intros s k; [reflexivity|].
+    unfold kbatch_kstep, kbatch_step, kbatch_rproj in *. cbn [filter batch_step map combine fst snd].
+    destruct (keqb (pkey p) k) eqn:E.
+    - apply keqb_eq in E. subst k. cbn [batch_step filter fst snd map].
+      rewrite (prim_local s p). cbn [fst snd].
+      specialize (IH (fst (pstep s p)) (pkey p)). cbn [fst snd] in IH.
+      rewrite IH. cbn [fst snd].
+      reflexivity.
+    - assert (Hne : k <> pkey p) by (intro; subst; assert (keqb (pkey p) (pkey p) = true) by (apply keqb_eq; reflexivity); congruence).
+      specialize (IH (fst (pstep s p)) k). cbn [fst snd] in IH.
+      rewrite (prim_frame s p k Hne) in IH. rewrite IH. reflexivity.
+  Qed.
+
+  Lemma kbatch_local : forall s b k, kbatch_touches b k = true ->
+    kbatch_kstep k (view s k) b = (view (fst (kbatch_step s b)) k, kbatch_rproj k (snd (kbatch_step s b))).
+  Proof. intros. apply kbatch_local_gen. Qed.
+
+  Lemma kbatch_frame : forall b s k, kbatch_touches b k = false ->
+    view (fst (kbatch_step s b)) k = view s k.
+  Proof.
+    induction b as [|p t IH]; intros s k H; [reflexivity|].
+    unfold kbatch_touches in H. cbn in H. apply orb_false_iff in H. destruct H as [H1 H2].
+    unfold kbatch_step in *. cbn [batch_step fst snd].
+    specialize (IH (fst (pstep s p)) k H2). cbn [fst] in IH. rewrite IH.
+    apply prim_frame. intro; subst.
+    assert (keqb (pkey p) (pkey p) = true) by (apply keqb_eq; reflexivity). congruence.
+  Qed.
+End BatchLocal.
+
+(* ------------------------------------------------------------------------------------ *)
+(* 5. the register machine of the correspondence and the keyed store                      *)
+(* ------------------------------------------------------------------------------------ *)
+Lemma prep_eqb_eq : forall a b, prep_eqb a b = true <-> a = b.
+Proof.
+  intros a b. destruct a as [[x|]| |x| | |x], b as [[y|]| |y| | |y]; cbn;
+    try (split; [discriminate|intro H; inversion H]; fail); try tauto.
+  - rewrite Bytes.bytes_eqb_eq. split; [congruence|intro H; inversion H; reflexivity].
+  - rewrite Z.eqb_eq. split; [congruence|intro H; inversion H; reflexivity].
+  - rewrite Bytes.bytes_eqb_eq. split; [congruence|intro H; inversion H; reflexivity].
+Qed.
+Lemma preps_eqb_eq : forall a b, preps_eqb a b = true <-> a = b.
+Proof.
+  induction a as [|x a IH]; destruct b as [|y b]; cbn; try (split; [discriminate|intro H; inversion H]; fail); [tauto|].
+  rewrite andb_true_iff, prep_eqb_eq, IH. split; [intros [? ?]; congruence|intro H; inversion H; auto].
+Qed.
+
+Notation klin := (linearizable_complete (option (list N)) (list prim) (list prep) kstep).
+
+Lemma lin_check_sound_lemma : forall init h, lin_check init h = true -> klin init h.
+Proof. intros init h. apply lin_check_gen_sound. exact preps_eqb_eq. Qed.
+Lemma lin_check_complete_lemma : forall init h, klin init h -> lin_check init h = true.
+Proof. intros init h. apply lin_check_gen_complete. exact preps_eqb_eq. Qed.
+Lemma lin_check_exact_lemma : forall init h, lin_check init h = true <-> klin init h.
+Proof. intros; split; [apply lin_check_sound_lemma|apply lin_check_complete_lemma]. Qed.
+Lemma lin_brute_exact_lemma : forall init h, lin_brute init h = true <-> klin init h.
+Proof. intros init h. apply lin_brute_gen_exact. exact preps_eqb_eq. Qed.
+Lemma lin_check_brute_agree : forall init h, lin_check init h = lin_brute init h.
+Proof.
+  intros init h. destruct (lin_check init h) eqn:E1, (lin_brute init h) eqn:E2; try reflexivity.
+  - apply lin_check_exact_lemma, lin_brute_exact_lemma in E1. congruence.
+  - apply lin_brute_exact_lemma, lin_check_exact_lemma in E2. congruence.
+Qed.
+
+(* the keyed store satisfies the hypotheses of the per-key theorem, for any shard count *)
+Lemma store_key_local : forall (s : nat -> option (list N)) op k, store_touches op k = true ->
+  store_kstep k (store_view s k) op =
+  (store_view (fst (store_step s op)) k, snd (store_step s op)).
+Proof.
+  intros s [key ops] k H. unfold store_touches in H. cbn in H. apply Nat.eqb_eq in H. subst key.
+  unfold store_kstep, store_view, store_step. cbn [fst snd]. rewrite upd_eq.
+  destruct (kstep (s k) ops); reflexivity.
+Qed.
+Lemma store_key_frame : forall (s : nat -> option (list N)) op k, store_touches op k = false ->
+  store_view (fst (store_step s op)) k = store_view s k.
+Proof.
+  intros s [key ops] k H. unfold store_touches in H. cbn in H. apply Nat.eqb_neq in H.
+  unfold store_view, store_step. cbn [fst snd]. apply upd_neq. auto.
+Qed.
+Lemma store_single_homed : forall n op k, store_touches op k = true -> store_route n op = Nat.modulo k n.
+Proof.
+  intros n [key ops] k H. unfold store_touches in H. cbn in H. apply Nat.eqb_eq in H. subst. reflexivity.
+Qed.
